@@ -159,6 +159,11 @@ def _validate_shard(module, cfg, logs, timeout, xmx, cwd):
                       xmx=xmx, tag='VERDICT', allow_error=True, cwd=cwd)
         if res.timed_out:
             raise MachineryError(f'{module}: trace validation timed out after {timeout}s')
+        if not res.vp and ('OutOfMemoryError' in res.stdout or 'insufficient memory' in res.stdout or res.rc in (137, 134, 1) and 'Error:' not in res.stdout):
+            # the JVM could not get its memory (a loaded machine): once more, alone
+            time.sleep(5)
+            res = run_tlc(module, cfg, workers=1, timeout=timeout, env={'TRACE_FILE': path}, label=f'{module}[shard, retried]',
+                          xmx=xmx, tag='VERDICT', allow_error=True, cwd=cwd)
         if not res.vp:
             tail = '\n'.join(res.stdout.splitlines()[-30:])
             raise MachineryError(f'{module}: trace validation produced no verdict:\n{res.error}\n{tail}')
